@@ -14,32 +14,43 @@ import adapters
 
 PID = "C12"
 MANIFEST = dict(
-    text="PARTIAL (the operating system is modelled, not verified). 20 Lean theorems over a byte-level model of urllib.parse.quote / "
-         "unquote_to_bytes / posixpath.join and of source_path_map, as_dict, as_html_tags, copy_to, save_html over an abstract file system "
-         "(finite map path -> bytes): C12_quote_roundtrip(_str), C12_quote_inert (quote emits only unreserved characters, '/' and '%'); "
-         "C12_url_local, C12_url_local_closed, C12_url_remote (URL = [lib_prefix/]name[-version]/quote(path) resp. href/quote(path), exactly "
-         "one '/'), C12_dict_scripts / C12_dict_sheets (as_dict writes exactly these URLs, rel=stylesheet); C12_target, C12_agree (for a clean "
-         "relative path, clean libdir and URL-inert directory name, the URL is a plain relative reference and, percent-decoded and resolved "
-         "against the file's directory, IS the path copy_to writes to); C12_copy_ok / C12_copy_ok_all (target = exactly the listed files / the "
-         "whole source directory, byte-identical, stale content gone, nothing outside the target changed); C12_copy_missing and "
-         "C12_copy_keyerror (raises, returned state = initial state); C12_no_copy; C12_save, C12_save_destdir, C12_save_receivers, "
-         "C12_save_fail and the end-to-end C12_save_urls (save_html returns `file`, the file holds the rendering made with lib_prefix=libdir, "
-         "every local URL resolves to a byte-identical copy, targets hold nothing else, everything else unchanged). The model is tied to the "
-         "code by differential runs against REAL temporary directories, and the executable statement (Holds/C12.lean) is evaluated on the real "
-         "outcome: returned path, URLs extracted from the written file, the complete destination tree, exception kinds; every choice of one "
-         "missing listed file is enumerated with a sentinel in the target. An independent Python oracle (html.unescape + unquote_to_bytes + "
-         "byte comparison) re-checks every save_html case.",
+    text="PARTIAL (the operating system is modelled, not verified) + KNOWN FINDING F-C12. 24 Lean theorems over a byte-level model of "
+         "urllib.parse.quote / unquote_to_bytes / posixpath.join and of source_path_map, as_dict, as_html_tags, copy_to, save_html over an "
+         "abstract file system (finite map path -> bytes): C12_quote_roundtrip(_str), C12_quote_inert (quote emits only unreserved characters, "
+         "'/' and '%'); C12_url_local, C12_url_local_closed, C12_url_remote (URL = [lib_prefix/]name[-version]/quote(path) resp. "
+         "href/quote(path), exactly one '/'; prefix, name, version unencoded), C12_dict_scripts / C12_dict_sheets; C12_target, C12_agree "
+         "(clean relative path, clean libdir, directory name over printable ASCII without % # ? : / \\: the URL is a plain relative "
+         "reference and, percent-decoded and resolved against the file's directory, IS the path copy_to writes to); C12_copy_ok / "
+         "C12_copy_ok_all (target = exactly the listed files / the whole source directory, byte-identical, stale content gone, nothing outside "
+         "changed); C12_copy_missing, C12_copy_keyerror (raises, returned state = initial state); C12_no_copy; C12_save_destdir; "
+         "C12_save_urls (any rendering); and over the ACTUAL document model (Doc.docRender, asHtmlTags): C12_head_urls (the markup written is "
+         "the doctype + the tree whose one head holds, for every resolved dependency, link/script tags whose href/src attribute is exactly "
+         "urlOf d libdir iv path), C12_saved_deps_resolved, C12_save_doc (HTMLDocument / Tag / TagList: returns `file`, the file holds that "
+         "markup, every URL of a wanted file resolves to a byte-identical copy, targets hold nothing else, everything else unchanged), "
+         "C12_save_fail. FINDING F-C12: clause 2 is FALSE on the code when [libdir/]name[-version] contains %XX, '#', '?' or a ':' in its "
+         "first component (clause 1 prescribes these parts unencoded): C12_urls_resolve_full_is_false(_more) prove the negation by "
+         "witnesses, C12_guards_exclude_special shows the guards exclude exactly this class among printable ASCII; the check generates the "
+         "class, reports it as KNOWN-FINDING (matcher prefix_or_name_or_version_has_url_special) and treats every other failure as a "
+         "violation. The model is tied to the code by differential runs against REAL temporary directories, judged on file-system STATE only "
+         "(complete tree before/after; no library call is observed), and the executable statement (Holds/C12.lean, evaluated WITHOUT the "
+         "character guards) is evaluated on the real outcome: returned path, URLs extracted from the written file, the complete destination "
+         "tree, exception kinds; every choice of one missing listed file is enumerated (sentinel and stale files, directories included, "
+         "compared byte for byte). An independent Python oracle (html.unescape + urlsplit + unquote_to_bytes + byte comparison) re-checks "
+         "every save_html case.",
     design="DESIGN.md §6 C12",
     note="Modelled, not verified (hence partial): the operating system — shutil.copy2/copytree/rmtree, pathlib.Path.glob/resolve/mkdir, "
          "os.path.exists/isfile/isdir/realpath, open(); symbolic links, permissions, the locale encoding of open(file,'w') (taken as UTF-8), "
-         "empty directories (not representable in the implicit-directory file-system model), '.'/'..' path segments; urllib.parse.quote, "
-         "posixpath.join/dirname, str.encode('utf-8') (modelled byte for byte and compared exhaustively on small scopes); package_dir()'s "
-         "import machinery (its result is an input); HTMLDocument.render (its result is an input of save_html's model — C11 owns it; the check "
-         "passes the real render(lib_prefix=libdir) output in and requires the written file to equal it). Guards of the theorems: CleanRel path, "
-         "CleanDir libdir, SafeSeg name[-version], pairwise different directory names, source / target / html-file directories apart "
-         "(neither contains the other), no regular file on the way to a target, SrcWF (a regular file has nothing below it) for all_files.",
-    technique="Lean 4 proofs over a byte-level path algebra and an abstract file system + differential correspondence check on real "
-              "temporary directories with fault enumeration (every choice of one missing listed file)",
+         "empty directories (not representable in the implicit-directory file-system model; the atomicity op compares them on the real "
+         "tree), '.'/'..' path segments; urllib.parse.quote, posixpath.join/dirname, str.encode('utf-8') (modelled byte for byte and compared "
+         "exhaustively on small scopes); package_dir()'s import machinery (its result is an input); version order (packaging, passed as a "
+         "rank). HTMLDocument.render is C11's model (Doc.docRender), used here unchanged. Guards of the theorems: CleanRel path, CleanDir "
+         "libdir, SafeSeg name[-version] (printable ASCII without % # ? : / \\ — non-ASCII prefixes/names are covered by the executable "
+         "statement only), SoleKeys (one key per dict normalises to src/href), pairwise different directory names, source / target / "
+         "html-file directories apart, no regular file on the way to a target, SrcWF for all_files; C11's noDepInDepHead where the copied "
+         "list is identified with the resolved list.",
+    technique="Lean 4 proofs over a byte-level path algebra, an abstract file system and the document model + differential correspondence "
+              "check on real temporary directories (state-based) with fault enumeration (every choice of one missing listed file); "
+              "negation witness + matcher for the recorded finding",
 )
 PROP_FILES = ["HtmlVerif/Props/C12.lean", "HtmlVerif/Props/ConstsDeps.lean"]
 
@@ -50,10 +61,21 @@ FILE_NAMES = [
     "a.js", "a b.js", "100%.css", "x%20y.js", "q#1.js", "w?v=1.js", "a&b.css", "it's.js", 'q"uote.js', "é.css",
     "日本 語.js", "😀.js", "sub/n.js", "sub/deep er/m#.css", "~t_.-x", "+p lus.js", "a=b;c.js", "<t>.js", ".dot.js",
     "%41.js", "%zz", "c:d.js", "sub/é/ü.css",
+    # round 3: backslash (a plain character on POSIX; a separator to user agents unless encoded), upper case, leading and
+    # trailing blanks, the decomposed (NFD) twin of "é.css", every sub-delim / gen-delim together
+    "js\\app.js", "UP/Case.JS", " lead.js", "trail.js ", "e\u0301.css", "x+y&z;k=v~'\"!$(),*@[].js", "Sub/N.js",
 ]
-DEP_NAMES = ["dep", "my-dep", "d_1.x", "A~b", "zz9"]
-VERSIONS = ["1.0", "2.1.3", "1.0+local", "1!2.0", "0.0", "3.0a1"]
+# directory names (name[-version]) are written into URLs *unencoded* (statement, clause 1).  The first group is inert for
+# every reader; the second group changes under quote() / lower() / unquote() but still satisfies clause 2 (a change that
+# quotes, or fails to quote, only the name shows here); the third group is finding F-C12 (clause 2 fails as the code is).
+DEP_NAMES_INERT = ["dep", "my-dep", "d_1.x", "A~b", "zz9"]
+DEP_NAMES_QUOTABLE = ["my dep", "d&b'q\"x", "Dé", "d+e=f;g", "<n>", "%zz", "b\\s"]
+DEP_NAMES_SPECIAL = ["a%41", "a#b", "a?b", "c:d", "p%20q"]
+DEP_NAMES = DEP_NAMES_INERT + DEP_NAMES_QUOTABLE
+VERSIONS = ["1.0", "2.1.3", "1.0+local", "1!2.0", "0.0", "3.0a1"]       # packaging normalises to [0-9a-z.!+]: all URL-inert
 LIBDIRS = [None, "", "lib", "a/b", "a/b/"]
+LIBDIRS_QUOTABLE = ["my lib", "l&b'q\"x", "é/ü", "L+ib;=~", "100%", "x\\y"]
+LIBDIRS_SPECIAL = ["my%20lib", "a#b", "a?b", "c:d/e", "ok/%41"]
 HREFS = ["https://cdn.example/pkg", "https://cdn.example/pkg/", "//cdn/x", "/abs/url/", "rel/url"]
 QUOTE_ALPHA = ["a", "Z", "0", "~", "/", " ", "%", "#", "?", "é", "€", "😀", "+", "\x00", "\x7f", "&", '"']
 UNQ_ALPHA = ["%", "4", "1", "g", "F", "a", "/", "é"]
@@ -102,6 +124,23 @@ def listed(info) -> list[str]:
 
 def dir_name(info, iv: bool) -> str:
     return info["name"] + ("-" + info["version"] if iv else "")
+
+
+def href_base(lp, dn: str) -> str:
+    """[prefix/]name[-version] as clause 1 of the statement writes it (prefix, name, version unencoded)"""
+    if not lp:
+        return dn
+    return lp + dn if lp.endswith("/") else lp + "/" + dn
+
+
+def url_special(base: str) -> bool:
+    """Spec/Paths.lean `urlSpecial`: a character a URL reader interprets — % # ? anywhere, ':' in the first component"""
+    return any(c in base for c in "%#?") or ":" in base.split("/")[0]
+
+
+def is_special(info, lp, iv: bool) -> bool:
+    s = info["source"]
+    return s is not None and s[0] == "subdir" and url_special(href_base(lp, dir_name(info, iv)))
 
 
 def content_of(tag: str, rng) -> str:
@@ -192,6 +231,9 @@ def prerender(recv, content, libdir, iv, cwd):
 
 def save_line(recv, content, file, cwd, libdir, iv, fs) -> str:
     file_abs = posixpath.normpath(posixpath.join(cwd, file))
+    # the model renders the document itself: version order is the run time's contribution (packaging), as a rank
+    import ops_tagify
+    content = ops_tagify.rank_terms(content)
     html, deps = prerender(recv, content, libdir, iv, cwd)
     return (f"save_html {recv} {enodes(content)} {es(file)} {es(file_abs)} {eopt(libdir)} {eb(iv)} {es(cwd)} "
             f"{es(html)} {elist([edepinfo(d) for d in deps])} {fsops.efs(fs)}")
@@ -264,7 +306,7 @@ def gen_urls(ck, tier):
     rng = ck.rng
     lines = []
     n = 0
-    lps = [None, "", "lib", "a/b", "a/b/", "my lib", "/abs", "l%20b"]
+    lps = [None, "", "lib", "a/b", "a/b/", "my lib", "/abs", "l%20b"] + LIBDIRS_QUOTABLE[1:] + LIBDIRS_SPECIAL
     for src in all_sources():
         for lp in lps:
             for iv in (True, False):
@@ -281,6 +323,25 @@ def gen_urls(ck, tier):
                                           f"absolute-path and relative URL, absolute / relative directory, 2 package sources) x {len(lps)} "
                                           "lib_prefix values x include_version, names/versions/file names cycling",
                                  "cases": n, "exhaustive": True})
+    # every directory name x every prefix (inert, changed-by-quote, finding class) x include_version, local source:
+    # clause 1 (format) and clause 2 (decodes to libdir/name[-version]/path) evaluated without the character guards
+    m = 0
+    all_names = DEP_NAMES_INERT + DEP_NAMES_QUOTABLE + DEP_NAMES_SPECIAL
+    all_lps = LIBDIRS + LIBDIRS_QUOTABLE + LIBDIRS_SPECIAL
+    for name in all_names:
+        for lp in all_lps:
+            for iv in (True, False):
+                k = m % (len(FILE_NAMES) - 2)
+                m += 1
+                info = mk_dep(name, VERSIONS[m % len(VERSIONS)], subdir_source(None, V + "/s"), FILE_NAMES[k:k + 2], FILE_NAMES[k + 1:k + 2])
+                cls = "special" if is_special(info, lp, iv) else "plain"
+                lines.append((f"as_dict {edepinfo(info)} F [ ] {eopt(lp)} {eb(iv)}", True, "as_dict:names-x-prefixes:" + cls))
+                if m % 3 == 0:
+                    lines.append((f"as_html_tags {edepinfo(info)} F [ ] {eopt(lp)} {eb(iv)}", True, "as_html_tags:names-x-prefixes:" + cls))
+    ck.exhaustive_scopes.append({"scope": f"as_dict: {len(all_names)} directory names x {len(all_lps)} lib_prefix values x include_version "
+                                          "(inert; changed by quote()/lower()/unquote() yet harmless: space & ' \" < + ; = non-ASCII, '%' without "
+                                          "hex digits, backslash; and the finding class: %XX, #, ?, ':' in the first component)",
+                                 "cases": m, "exhaustive": True})
     # every file name on its own, local and remote
     for p in FILE_NAMES:
         for src in (subdir_source(None, V + "/s"), ("href", "https://h/x"), ("href", "https://h/x/")):
@@ -314,7 +375,7 @@ def gen_urls(ck, tier):
     # random
     for _ in range(ck.budget(300, 20000)):
         src = rng.choice(all_sources())
-        info = mk_dep(rng.choice(DEP_NAMES), rng.choice(VERSIONS), src,
+        info = mk_dep(rng.choice(DEP_NAMES + DEP_NAMES_SPECIAL), rng.choice(VERSIONS), src,
                       rng.sample(FILE_NAMES, rng.randint(0, 4)), rng.sample(FILE_NAMES, rng.randint(0, 3)),
                       all_files=rng.random() < 0.3)
         lp = rng.choice(lps)
@@ -343,17 +404,20 @@ def gen_copy(ck, tier):
             target = posixpath.join(dest, dir_name(info, iv))
             fs = source_files(info, rng) + stale_files(target, info, rng) + neighbour_files(dest.rstrip("/"), info, iv, rng)
             lines.append((copy_line("copy_to", info, dest, iv, V, fs), True, "copy_to:ok"))
-            if gi % 2 == 0:
-                lines.append((copy_line("copy_plan", info, dest, iv, V, fs), True, "copy_plan"))
             # fault enumeration: every choice of one missing listed file; the sentinel and stale files must survive
+            # (copy_to: files of the whole sandbox before/after; copy_atomic: directories, names, contents)
             for miss in listed(info):
                 fs2 = [(p, c) for p, c in fs if p != posixpath.join(src[3], miss)]
                 lines.append((copy_line("copy_to", info, dest, iv, V, fs2), True, "copy_to:missing"))
+                lines.append((copy_line("copy_atomic", info, dest, iv, V, fs2), True, "copy_atomic:missing"))
                 n_fault += 1
             if gi % 4 == 0 and iv:
-                # fresh destination (nothing there yet)
-                lines.append((copy_line("copy_to", info, dest, iv, V, source_files(info, rng)), True, "copy_to:fresh"))
-                lines.append((copy_line("copy_plan", info, dest, iv, V, source_files(info, rng)), True, "copy_plan"))
+                # fresh destination (nothing there yet): success, and a missing file must not even create the directory
+                fresh = source_files(info, rng)
+                lines.append((copy_line("copy_to", info, dest, iv, V, fresh), True, "copy_to:fresh"))
+                for miss in listed(info)[:1]:
+                    fs2 = [(p, c) for p, c in fresh if p != posixpath.join(src[3], miss)]
+                    lines.append((copy_line("copy_atomic", info, dest, iv, V, fs2), True, "copy_atomic:missing-fresh"))
     ck.exhaustive_scopes.append({"scope": f"copy_to: {len(groups)} file-name groups (each of {len(FILE_NAMES)} adversarial names alone, and "
                                           "overlapping groups of 4) x include_version, stale target content + sentinel + neighbour directories; "
                                           "for each, EVERY choice of one missing listed file",
@@ -367,7 +431,6 @@ def gen_copy(ck, tier):
             target = posixpath.join(dest, dir_name(info, iv))
             fs = source_files(info, rng) + stale_files(target, info, rng) + neighbour_files(dest.rstrip("/"), info, iv, rng)
             lines.append((copy_line("copy_to", info, dest, iv, V, fs), True, "copy_to:all_files"))
-            lines.append((copy_line("copy_plan", info, dest, iv, V, fs), True, "copy_plan"))
             miss = listed(info)[0]
             fs2 = [(p, c) for p, c in fs if p != posixpath.join(src[3], miss)]
             lines.append((copy_line("copy_to", info, dest, iv, V, fs2), True, "copy_to:all_files"))
@@ -381,10 +444,10 @@ def gen_copy(ck, tier):
                 target = posixpath.join(V + "/out", dir_name(info, iv))
                 fs = source_files(info, rng) + stale_files(target, info, rng)
                 lines.append((copy_line("copy_to", info, V + "/out", iv, V, fs), True, "copy_to:package"))
-                lines.append((copy_line("copy_plan", info, V + "/out", iv, V, fs), True, "copy_plan"))
                 if not af:
                     bad = mk_dep("w", "1.0", src, sc + ["nope.js"], sh)
                     lines.append((copy_line("copy_to", bad, V + "/out", iv, V, fs), True, "copy_to:missing"))
+                    lines.append((copy_line("copy_atomic", bad, V + "/out", iv, V, fs), True, "copy_atomic:missing"))
         cwd = V + "/work"
         src = subdir_source(None, "src/rel", cwd=cwd)
         info = mk_dep("rel", "2.1.3", src, ["a b.js", "sub/n.js"], ["é.css"])
@@ -396,7 +459,7 @@ def gen_copy(ck, tier):
             target = posixpath.join(V + "/out", dir_name(info, iv))
             fs = stale_files(target, info, rng) + [(V + "/unrelated/file.txt", "u")]
             lines.append((copy_line("copy_to", info, V + "/out", iv, V, fs), True, "copy_to:nocopy"))
-            lines.append((copy_line("copy_plan", info, V + "/out", iv, V, fs), True, "copy_plan"))
+            lines.append((copy_line("copy_atomic", info, V + "/out", iv, V, fs), True, "copy_atomic:nocopy"))
     # (d) listed directories, duplicates, conflicts, blocked targets — model faithfulness outside the theorems' guards
     src = subdir_source(None, V + "/src/dd")
     base_fs = [(src[3] + "/dir/a.js", "A"), (src[3] + "/dir/in/b.js", "B"), (src[3] + "/top.js", "T"), (src[3] + "/dir2/c", "C")]
@@ -489,15 +552,40 @@ def gen_save(ck, tier):
     ck.exhaustive_scopes.append({"scope": "save_html: libdir in {None,'','lib','a/b','a/b/'} x include_version x receiver in {HTMLDocument, Tag, TagList} "
                                           "x 4 file/cwd forms (absolute, relative, nested with space/%/#, non-ASCII); 6 dependencies each (two "
                                           "versions of one name, relative dir, URL, source-less with head, package); all combinations in both tiers", "cases": n, "exhaustive": True})
+    # prefixes and names that quote()/unquote()/lower() would change: harmless ones (clause 2 holds) and the finding class
+    m = 0
+    combos = ([(lib, nm) for lib in LIBDIRS_QUOTABLE + LIBDIRS_SPECIAL for nm in ("d-one", "my dep")]
+              + [(lib, nm) for lib in (None, "lib") for nm in DEP_NAMES_QUOTABLE + DEP_NAMES_SPECIAL])
+    for lib, nm in combos:
+        for iv in ((True, False) if tier != "quick" else (m % 2 == 0,)):
+            recv = ("doc", "tag", "list")[m % 3]
+            file, cwd = files[m % len(files)]
+            k = (m * 7) % (len(FILE_NAMES) - 4)
+            m += 1
+            d1 = mk_dep(nm, VERSIONS[m % len(VERSIONS)], subdir_source(None, V + "/src/one", cwd), FILE_NAMES[k:k + 2], FILE_NAMES[k + 2:k + 4])
+            d2 = mk_dep("two", "2.1.3", subdir_source(None, V + "/src/two", cwd), ["js\\app.js"], ["UP/Case.CSS"], all_files=(m % 4 == 0))
+            body = body_with([dep_node(d1), dep_node(d2)], rng)
+            content = [body] if recv != "list" else [("text", "lead"), body]
+            file_abs = posixpath.normpath(posixpath.join(cwd, file))
+            dest = destdir_of(file_abs, lib)
+            fs = source_files(d1, rng, nested=False) + source_files(d2, rng, nested=False)
+            fs += stale_files(posixpath.join(dest, dir_name(d1, iv)), d1, rng)
+            fs.append((posixpath.dirname(file_abs) + "/.keep", ""))
+            fs = list(dict(fs).items())
+            cls = "special" if (is_special(d1, lib, iv) or is_special(d2, lib, iv)) else "plain"
+            lines.append((save_line(recv, content, file, cwd, lib, iv, fs), True, "save_html:names-x-libdirs:" + cls))
+    ck.exhaustive_scopes.append({"scope": "save_html: every libdir of the quotable / finding groups x {inert, spaced} name, and every name of "
+                                          "those groups x libdir in {None,'lib'}; receiver, file form, include_version rotating (both values in the thorough tier)",
+                                 "cases": m, "exhaustive": True})
     # random documents: random subsets of dependencies, file names, libdir, receiver; sometimes one listed file missing
-    more_libs = LIBDIRS + ["l-1/x_y", "L", "a/b//", "x/y/z"]
+    more_libs = LIBDIRS + ["l-1/x_y", "L", "a/b//", "x/y/z"] + LIBDIRS_QUOTABLE + LIBDIRS_SPECIAL[:2]
     for _ in range(ck.budget(250, 2500)):
         libdir = rng.choice(more_libs)
         iv = rng.random() < 0.5
         recv = rng.choice(["doc", "tag", "list"])
         file, cwd = rng.choice(files)
         deps = []
-        names = rng.sample(DEP_NAMES, rng.randint(1, 4))
+        names = rng.sample(DEP_NAMES + DEP_NAMES_SPECIAL[:2], rng.randint(1, 4))
         for i, nm in enumerate(names):
             kind = rng.random()
             if kind < 0.65:
@@ -560,28 +648,75 @@ def py_oracle(ck, line: str, impl: str):
         ck.py_violation(line, impl, f"save_html returned {ret!r}, not the file it was given {a['file']!r}")
         return
     fdir = posixpath.dirname(a["file_abs"])
-    expected_local = []
+    expected = []
     for d in a["deps"]:
-        s = d["source"]
-        if s is None or s[0] != "subdir":
+        if d["source"] is None:
             continue
         for p in [dict(x)["href"] for x in d["stylesheet"]] + [dict(x)["src"] for x in d["script"]]:   # document order: links, scripts
-            expected_local.append((d, p))
-    local_urls = [u for u in urls if not urllib.parse.urlsplit(u).scheme and not u.startswith("/")]
-    if len(local_urls) != len(expected_local):
-        ck.py_violation(line, impl, f"{len(local_urls)} local URLs in the file, {len(expected_local)} listed local files")
+            expected.append((d, p))
+    if len(urls) != len(expected):
+        ck.py_violation(line, impl, f"{len(urls)} src/href URLs in the file, {len(expected)} listed files")
         return
-    for u, (d, p) in zip(local_urls, expected_local):
+    for u, (d, p) in zip(urls, expected):
+        if d["source"][0] != "subdir":
+            continue
+        base = href_base(a["libdir"], dir_name(d, a["iv"]))
+        # finding F-C12: the URL is exactly what clause 1 prescribes, its unencoded prefix/name/version part holds a
+        # character URL readers interpret, and that alone keeps it from naming the copied file
+        known = "url-special: " if (url_special(base) and u == base + "/" + urllib.parse.quote(p)) else ""
         sp = urllib.parse.urlsplit(u)
-        if sp.query or sp.fragment or "#" in u or "?" in u:
-            ck.py_violation(line, impl, f"URL {u!r} has a query/fragment part")
+        if sp.scheme or sp.netloc or sp.query or sp.fragment or "#" in u or "?" in u or u.startswith("/"):
+            ck.py_violation(line, impl, f"{known}URL {u!r} is not a plain relative reference (scheme / query / fragment part)")
             return
         target = posixpath.join(fdir, os.fsdecode(urllib.parse.unquote_to_bytes(sp.path)))
         got = after.get(fsops.canon_path(target))
         want = before.get(fsops.canon_path(posixpath.join(d["source"][3], p)))
+        if want is None and d["all_files"]:
+            if got is not None:
+                ck.py_violation(line, impl, f"{known}URL {u!r} resolves to {target!r} which exists although the source does not")
+                return
+            continue
         if got is None or want is None or got != want:
-            ck.py_violation(line, impl, f"URL {u!r} resolves to {target!r}: content {got!r}, source content {want!r}")
+            ck.py_violation(line, impl, f"{known}URL {u!r} resolves to {target!r}: content {got!r}, source content {want!r}")
             return
+
+
+# ------------------------------------------------------------------ finding F-C12
+def _line_in_special_class(line: str) -> bool:
+    """the input class of the finding: some directory-sourced dependency of the case has `%`, `#`, `?` (or a ':' in the
+    first component) in [prefix/]name[-version]"""
+    try:
+        t = Toks(line)
+        opn = t.next()
+        if opn in ("as_dict", "as_html_tags"):
+            from wire import p_depinfo, p_bool, p_list, p_node, p_opt
+            info = p_depinfo(t)
+            p_bool(t)
+            p_list(t, p_node)
+            lp = p_opt(t)
+            iv = p_bool(t)
+            return is_special(info, lp, iv)
+        if opn == "save_html":
+            a = fsops._save_args(t)
+            return any(is_special(d, a["libdir"], a["iv"]) for d in a["deps"])
+    except Exception:
+        return False
+    return False
+
+
+def prefix_or_name_or_version_has_url_special(f) -> bool:
+    """exactly F-C12: the input is in the class AND the verdict says that the only thing wrong is a URL which, written in
+    the prescribed format, does not decode to the copied file (Lean: `Verdict.known`; Python oracle: `url-special:`).
+    Any other failure on such an input — wrong format, wrong copy, wrong return value — does not match."""
+    if f.kind != "property" or not f.line:
+        return False
+    d = f.detail or ""
+    if not (d.startswith("KNOWN url-special") or d.startswith("url-special: ")):
+        return False
+    return _line_in_special_class(f.line)
+
+
+MATCHERS = {"prefix_or_name_or_version_has_url_special": prefix_or_name_or_version_has_url_special}
 
 
 # ------------------------------------------------------------------ readable replays
@@ -618,7 +753,7 @@ def py_snippet(line: str) -> str:
     """a stand-alone Python reproduction of a file-system case against the public API"""
     t = Toks(line)
     opn = t.next()
-    if opn in ("copy_to", "copy_plan"):
+    if opn in ("copy_to", "copy_atomic"):
         info, path, iv, cwd, fs = fsops._copy_args(t)
         return (_fs_setup(fs) + f"os.makedirs(V + {cwd[len(V):]!r}, exist_ok=True); os.chdir(V + {cwd[len(V):]!r})\n"
                 f"dep = {_dep_expr(info)}\n"
@@ -722,7 +857,7 @@ def _run_chunk(ls):
 def impl_split(lines):
     """the real code on every line: the pure ops in-process, the file-system cases (each builds and removes a real
     temporary directory) spread evenly over a few worker processes"""
-    heavy = [i for i, l in enumerate(lines) if l.split(" ", 1)[0] in ("copy_to", "copy_plan", "save_html")]
+    heavy = [i for i, l in enumerate(lines) if l.split(" ", 1)[0] in ("copy_to", "copy_atomic", "save_html")]
     hs = set(heavy)
     out = [None] * len(lines)
     for i, l in enumerate(lines):
@@ -835,7 +970,9 @@ def run(tier: str) -> int:
     if thin and ck.driver is not None:
         raise core.Infra(f"generator no longer reaches the clauses {thin} of the statement (guards fail?): {cov}")
     ck.assumptions.append("operating system behaviour (shutil, pathlib, os.path, open) is modelled, not verified: partial")
-    ck.assumptions.append("guards of the theorems: CleanRel path, CleanDir libdir, SafeSeg name[-version], source/target/html-file apart")
-    # report the smallest failing input first
-    ck.failures.sort(key=lambda f: (f.kind != "property", len(f.line)))
-    return ck.finish(shrink=make_shrink(ck))
+    ck.assumptions.append("guards of the theorems: CleanRel path, CleanDir libdir, SafeSeg name[-version], source/target/html-file apart; "
+                          "the executable statement is evaluated without the character guards (finding F-C12 is what then fails)")
+    # report the smallest failing input first, inputs outside the finding's class before those inside
+    ck.failures.sort(key=lambda f: (f.kind != "property", _line_in_special_class(f.line), len(f.line)))
+    ck.extra_cov["finding_class_cases"] = sum(v for k, v in ck.tags.items() if k.endswith(":special"))
+    return ck.finish(matchers=MATCHERS, shrink=make_shrink(ck))
